@@ -177,10 +177,9 @@ static void check_all(const NameSet& ns, const Ref& r, int id)
 static void check_probe(const NameSet& ns, const Ref& r, const Str& q, int id, bool full = true)
 {
    int at = find(r, q);
-   vp_assert(ns.number(q.c) == at, id + 1);                             // -1 for absent names
+   vp_assert(ns.number(q.c) == at, id + 1);                             // -1 for absent names (number() itself calls has())
    if(full)
    {
-      vp_assert(ns.has(q.c) == (at >= 0), id);
       DataKey k = ns.key(q.c);
       int kx = -1;
       for(int i = 0; i < CAP; ++i) if(i == at) kx = r.kidx[i];
@@ -252,6 +251,7 @@ extern "C" void h_ns_lookup()
    check_all(ns, r, 10);
    Str q; draw(q);
    check_probe(ns, r, q, 20);
+   vp_assert(ns.has(q.c) == (find(r, q) >= 0), 30);
    vp_cover(1);
 }
 extern "C" void h_ns_remove_name()
@@ -263,11 +263,20 @@ extern "C" void h_ns_remove_name()
    if(at >= 0) ref_remove(r, at);
    check_all(ns, r, 10);
    Str p; draw(p);
-   check_probe(ns, r, p, 20);                    // arbitrary name: the removed one is gone, all others are still found
-   // the removed (or any other) name can be registered again and gets the last number
+   check_probe(ns, r, p, 20, false);             // arbitrary name: the removed one is gone, all others are still found
+   vp_cover(1);
+}
+// a removed name can be registered again: it gets a fresh key and the last number
+extern "C" void h_ns_readd()
+{
+   NameSet ns(NMAX, MEMMAX); Ref r; build(ns, r, NB);
+   Str q; draw(q);
+   vp_assume(find(r, q) >= 0);
+   ns.remove(q.c);
+   ref_remove(r, find(r, q));
    add_both(ns, r, q, 40);
    check_all(ns, r, 50);
-   vp_assert(ns.number(q.c) == find(r, q), 60);
+   vp_assert(ns.number(q.c) == r.n - 1, 60);
    vp_cover(1);
 }
 // the list removals; afterwards (arbitrary string p): found iff it is a survivor, under a number j that holds its text and its
@@ -438,7 +447,7 @@ extern "C" void h_ns_add_set()
 
 // ---- C17-O1 self-composition: the same operation sequence on two separately constructed NameSets gives equal answers ------
 #ifndef HIST2
-#define HIST2 3
+#define HIST2 2
 #endif
 extern "C" void h_ns_selfcomp()
 {
